@@ -15,7 +15,9 @@ import DhcpProofs.Lemmas.ClientRefine
   reach the stream: that is C10), every offer / lease / advertise, every
   transaction id and every list of user modifiers.  `stream` is what the
   routed channel delivers to the call (see Dhcp/Client/Lease.lean for the
-  abstraction and why C10/C11/C12 justify it).
+  abstraction; the last section of this file, "The abstract call IS the timed
+  call", proves that C11/C12's timed machine run on the routed stream returns
+  exactly this call's answer, and says precisely what is not covered).
 
   `Completes offer p` is the test of the property text: message type ACK or
   NAK and a server identifier `Equal` (net.IP.Equal) to the offer's.
